@@ -7,6 +7,8 @@ require (
 	github.com/anyproto/any-sync v0.0.0
 	github.com/cespare/xxhash v1.1.0
 	github.com/cheggaaa/mb/v3 v3.0.3
+	github.com/ipfs/go-cid v0.6.2
+	github.com/multiformats/go-multibase v0.3.0
 	go.uber.org/zap v1.28.0
 	golang.org/x/time v0.15.0
 	google.golang.org/protobuf v1.36.11
@@ -36,7 +38,6 @@ require (
 	github.com/golang/snappy v1.0.0 // indirect
 	github.com/google/uuid v1.6.0 // indirect
 	github.com/huandu/skiplist v1.2.1 // indirect
-	github.com/ipfs/go-cid v0.6.2 // indirect
 	github.com/jbenet/go-temp-err-catcher v0.1.0 // indirect
 	github.com/klauspost/cpuid/v2 v2.4.0 // indirect
 	github.com/libp2p/go-buffer-pool v0.1.0 // indirect
@@ -45,7 +46,6 @@ require (
 	github.com/multiformats/go-base32 v0.1.0 // indirect
 	github.com/multiformats/go-base36 v0.2.0 // indirect
 	github.com/multiformats/go-multiaddr v0.16.1 // indirect
-	github.com/multiformats/go-multibase v0.3.0 // indirect
 	github.com/multiformats/go-multicodec v0.10.0 // indirect
 	github.com/multiformats/go-multihash v0.2.3 // indirect
 	github.com/multiformats/go-multistream v0.6.1 // indirect
